@@ -1251,3 +1251,8 @@ def vf_uf256(ex, st, args, ins):
 import netmodel as _netmodel
 _netmodel.register(builtin)
 SYNC_POINTS |= {'epoll_wait', 'write', 'read'}
+
+@builtin('sysconf')
+def b_sysconf(ex, st, args, ins): return 2
+@builtin('syscall')
+def b_syscall(ex, st, args, ins): return st.threads[st.cur].tid + 100
